@@ -429,7 +429,13 @@ def components(text, version=None):
 
 
 def rc(seq):
-    comp = {"a": "t", "t": "a", "c": "g", "g": "c", "A": "T", "T": "A", "C": "G", "G": "C", "n": "n", "N": "N"}
+    # IUPAC nucleotide codes (written from the IUPAC table, not from gfapy): A<->T, C<->G, R(AG)<->Y(CT), K(GT)<->M(AC), B(CGT)<->V(ACG),
+    # D(AGT)<->H(ACT); S(CG), W(AT) and N are their own complements
+    pairs = "AT CG RY KM BV DH SS WW NN"
+    comp = {}
+    for p in pairs.split():
+        a, b = p[0], p[1]
+        comp[a] = b; comp[b] = a; comp[a.lower()] = b.lower(); comp[b.lower()] = a.lower()
     return "".join(comp.get(c, c) for c in reversed(seq))
 
 
